@@ -61,9 +61,12 @@ Accepted subset (anything else raises TranslateError with file:line):
               [getitem_counter] / [getitem_bases]); x[0], x[1] on a section or a
               tuple of zip; x[1][0] on the label of a section (only to the
               right of `x[1] and`); `*` on probabilities, + and - on ints;
-              comparisons (one operator): < > on probabilities (pltb), all six
+              comparisons (one operator): < > (pltb), <= >= (pleb), == != (peqb) on
+              probabilities (the model has pltb only: the other two are
+              uninterpreted, the theorems hold for every choice), all six
               on ints, == != on strings and characters, in / not in with a
-              literal list or tuple of strings; not / and / or (truth value of
+              literal list or tuple of strings, and of a one-character constant
+              with a string ('U' in mask: mem_c); not / and / or (truth value of
               a list or string: non-empty; of a label: not None; of an int:
               non-zero); a if c else b; zip of two or three lists or strings;
               [e for x in l if c] and the generator form (one `for`, any number
@@ -161,10 +164,10 @@ RET = (STR, STR, PROB, INT)
 
 BUILTINS_USED = {"len", "zip", "KeyError"}
 
-RESERVED = set("""P pmul p0 p1 pltb upper_c D self tt true false fst snd length nth seq nil cons list nat bool unit O S pred fun
+RESERVED = set("""P pmul p0 p1 pltb pleb peqb upper_c D self tt true false fst snd length nth seq nil cons list nat bool unit O S pred fun
 let in if then else match with end forall exists Type Prop Set as at return fix cofix struct where Definition Fixpoint
 Section End Nat N Z Some None option hd tl last concat skipn firstn map rev app filter combine flat_map negb andb orb
-str len slice sfrom sto getc str_eqb mem_str nonempty
+str len slice sfrom sto getc str_eqb mem_str mem_c nonempty
 exn KeyError OtherError out Norm Retn Exc bind try_keyerror for_each call res Ok Raise run_fn zip3 label_truth label_char0
 omen_obj omen_parse max_omen_level scorer_obj count_keyboard count_years count_context_sensitive count_alpha
 count_alpha_masks count_digits count_other count_base_structures multiword_detector limit omen rs_of getitem_len
@@ -435,6 +438,13 @@ class Tr:
             self.fail(e, "chained comparison")
         op, right = e.ops[0], e.comparators[0]
         if isinstance(op, (ast.In, ast.NotIn)):
+            if isinstance(e.left, ast.Constant) and type(e.left.value) is str and len(e.left.value) == 1 \
+                    and not isinstance(right, (ast.List, ast.Tuple)):
+                b, tb = self.expr(right, env)
+                if tb != STR:
+                    self.fail(e, "`'c' in x` is supported for a string x only")
+                t = "mem_c %d%%N %s" % (ord(e.left.value), _paren(b))
+                return (t if isinstance(op, ast.In) else "negb (%s)" % t), BOOL
             a, ta = self.expr(e.left, env)
             if ta != STR or not isinstance(right, (ast.List, ast.Tuple)) or not right.elts or \
                     not all(isinstance(x, ast.Constant) and type(x.value) is str for x in right.elts):
@@ -448,7 +458,15 @@ class Tr:
                 return "pltb %s %s" % (a, b), BOOL
             if isinstance(op, ast.Gt):
                 return "pltb %s %s" % (b, a), BOOL
-            self.fail(e, "only < and > are supported on probabilities")
+            if isinstance(op, ast.LtE):
+                return "pleb %s %s" % (a, b), BOOL
+            if isinstance(op, ast.GtE):
+                return "pleb %s %s" % (b, a), BOOL
+            if isinstance(op, ast.Eq):
+                return "peqb %s %s" % (a, b), BOOL
+            if isinstance(op, ast.NotEq):
+                return "negb (peqb %s %s)" % (a, b), BOOL
+            self.fail(e, "unsupported comparison of probabilities")
         if (ta, tb) == (INT, INT):
             table = {ast.Lt: "%s <? %s" % (a, b), ast.LtE: "%s <=? %s" % (a, b), ast.Gt: "%s <? %s" % (b, a),
                      ast.GtE: "%s <=? %s" % (b, a), ast.Eq: "%s =? %s" % (a, b), ast.NotEq: "negb (%s =? %s)" % (a, b)}
@@ -963,7 +981,11 @@ class Tr:
         if out is not None:
             self.fail(fn, "a path reaches the end of the function without `return`")
         text = "(* %s:%d  %s.%s *)\n" % (SOURCE, fn.lineno, CLASS, fn.name)
-        text += "Definition %s (self : scorer_obj P) (%s : str) : res (str * str * P * Z) := run_fn (\n" % (COQ_NAME, pw)
+        text += ("(* P: probabilities with `*` (pmul), 0 (p0), 1.0 (p1), float `<` `<=` `==` (pltb pleb peqb);\n"
+                 "   upper_c: str.upper() of one character; D: the detectors of lib_trainer the module imports *)\n")
+        text += ("Definition %s (P : Type) (pmul : P -> P -> P) (p0 p1 : P) (pltb pleb peqb : P -> P -> bool)\n"
+                 "    (upper_c : N -> str) (D : detectors) (self : scorer_obj P) (%s : str) : res (str * str * P * Z) := run_fn (\n"
+                 % (COQ_NAME, pw))
         text += _close(body, ").")
         return text
 
@@ -1098,18 +1120,9 @@ def render(repo=None):
         "From Pcfg Require Import Str Multiword Detect Segment Scorer ScorerRt.\n"
         "Import ListNotations.\n"
         "Open Scope Z_scope.\n\n"
-        "Section ScorerGen.\n"
-        "(* probabilities: `*`, 0, 1.0, float `<` *)\n"
-        "Variable P : Type.\n"
-        "Variable pmul : P -> P -> P.\n"
-        "Variables p0 p1 : P.\n"
-        "Variable pltb : P -> P -> bool.\n"
-        "(* str.upper() of one character *)\n"
-        "Variable upper_c : N -> str.\n"
-        "(* the detectors of lib_trainer the module imports *)\n"
-        "Variable D : detectors.\n\n" % (SOURCE, CLASS,
-                                         ("\n   Detectors not imported by the module: %s." % ", ".join(sorted(missing))) if missing else ""))
-    return head + body + "\nEnd ScorerGen.\n"
+        "\n" % (SOURCE, CLASS,
+                 ("\n   Detectors not imported by the module: %s." % ", ".join(sorted(missing))) if missing else ""))
+    return head + body
 
 
 def failure_text(err):
